@@ -364,7 +364,18 @@ namespace occa {
               if(s.find("_occa_tiled_") != std::string::npos) {
                 size_t tile_size = s.find_first_of("123456789");
                 OCCA_ERROR("@tile size is undefined!",tile_size != std::string::npos);
-                knownInnerDims[innerIndex] = std::stoi(s.substr(tile_size));
+                // std::stoi throws std::out_of_range for a huge tile size
+                int tileSize = 0;
+                try {
+                  tileSize = std::stoi(s.substr(tile_size));
+                } catch (const std::exception&) {
+                  tileSize = 0;
+                }
+                if (tileSize <= 0) {
+                  innerDimsKnown=false;
+                  break;
+                }
+                knownInnerDims[innerIndex] = tileSize;
               } else {
                 //loop bounds are unknown at compile time
                 innerDimsKnown=false;
